@@ -34,7 +34,8 @@ STR_KEYS = [["str"], MODE, ["text", "uuid"], ["date"], ["text", "ipv4addr"]]
 
 
 class Gen:
-    def __init__(self, seed: int, max_depth: int = 4):
+    def __init__(self, seed: int, max_depth: int = 4, str_keys_only: bool = False):
+        self.str_keys_only = str_keys_only
         self.r = random.Random(seed)
         self.max_depth = max_depth
         self.n = 0
@@ -66,9 +67,9 @@ class Gen:
         if c in ("set", "frozenset", "aset"):
             return [c, self.type(d - 1, True)]
         if c in ("dict", "odict", "ddict", "mapping", "mmapping", "mproxy", "chainmap"):
-            return [c, r.choice(KEY_LEAVES), self.type(d - 1)]    # keys: types whose basic form is hashable
+            return [c, r.choice(STR_KEYS if self.str_keys_only else KEY_LEAVES), self.type(d - 1)]    # keys: types whose basic form is hashable
         if c == "counter":
-            return [c, r.choice(KEY_LEAVES)]
+            return [c, r.choice(STR_KEYS if self.str_keys_only else KEY_LEAVES)]
         if c == "tuple":
             return ["tuple", [self.type(d - 1) for _ in range(r.randint(1, 3))]]
         if c == "utuple":
